@@ -88,8 +88,16 @@ var Entries = []string{"load", "file", "string", "byte", "reader"}
 // FileEntries are those that go through front-matter and layouts.
 var FileEntries = []string{"load", "file"}
 
+// MoreEntries are further ways to the same file render: the View shim, Assign key by key instead
+// of Fill, Fill before Load, and an engine put together with New(WithFS(..)) instead of NewFS.
+var MoreEntries = []string{"view", "assign", "fillload", "withfs"}
+
 // VueEntries are the lower-level *Vue methods.
 var VueEntries = []string{"vue", "frag"}
+
+// NodesEntry is Vue.RenderNodes over nodes loaded with NewLoader(fs).LoadFragment (front matter
+// stripped and not applied): run it with Program.Run.
+const NodesEntry = "nodes"
 
 // ErrBoom is returned by the registered function "boom".
 var ErrBoom = errors.New("boom failed")
@@ -167,7 +175,7 @@ func (p Program) Applicable(entry string) bool {
 	switch entry {
 	case "string", "byte", "reader":
 		return !p.FileOnly
-	case "vue", "frag":
+	case "vue", "frag", "nodes":
 		// the *Vue methods parse front-matter but know nothing about layouts or options
 		return !strings.Contains(strings.Join(p.Opts, " "), "components") && !strings.Contains(strings.Join(p.Feat, " "), "layout")
 	}
@@ -193,6 +201,21 @@ func (p Program) RunOn(ctx context.Context, root vuego.Template, entry string, w
 		return root.New().Fill(d).RenderByte(ctx, w, []byte(p.pageBody()))
 	case "reader":
 		return root.New().Fill(d).RenderReader(ctx, w, strings.NewReader(p.pageBody()))
+	case "view", "withfs":
+		return vuego.View(root, "page.vuego", d).Render(ctx, w)
+	case "assign":
+		t := root.Load("page.vuego")
+		keys := make([]string, 0, len(d))
+		for k := range d {
+			keys = append(keys, k)
+		}
+		sort.Strings(keys)
+		for _, k := range keys {
+			t = t.Assign(k, d[k])
+		}
+		return t.Render(ctx, w)
+	case "fillload":
+		return root.New().Fill(d).Load("page.vuego").Fill(d).Render(ctx, w)
 	}
 	return fmt.Errorf("cat: unknown entry %q", entry)
 }
@@ -223,6 +246,26 @@ func (p Program) NewVue(fsys fs.FS) *vuego.Vue {
 func (p Program) Run(ctx context.Context, entry string, w io.Writer) error {
 	if entry == "vue" || entry == "frag" {
 		return p.RunVue(p.NewVue(p.FS()), entry, w)
+	}
+	if entry == NodesEntry {
+		fsys := p.FS()
+		nodes, err := vuego.NewLoader(p.mounted(fsys)).LoadFragment("page.vuego")
+		if err != nil {
+			return err
+		}
+		return p.NewVue(fsys).RenderNodes(w, nodes, p.GoData())
+	}
+	if entry == "withfs" {
+		opts := []vuego.LoadOption{vuego.WithFS(p.mounted(p.FS())), vuego.WithFuncs(Funcs())}
+		for _, o := range p.Opts {
+			if o == "components" {
+				opts = append(opts, vuego.WithComponents())
+			}
+			if o == "counter" {
+				opts = append(opts, vuego.WithProcessor(&Counter{}))
+			}
+		}
+		return p.RunOn(ctx, vuego.New(opts...), entry, w)
 	}
 	return p.RunOn(ctx, p.Engine(p.FS()), entry, w)
 }
